@@ -12,6 +12,7 @@ def make(prop, rule_text, hostile_names):
         specs = shards("direct", 30000 if q else 2000000, 2500 if q else 50000, seed)
         specs += shards("parsed", 3000 if q else 100000, 250 if q else 4000, seed)
         specs += shards("reused_compiler", 8000 if q else 400000, 2000 if q else 40000, seed)
+        specs += [{"family": "thresholds", "seed": seed, "n": 1, "part": k, "parts": 8, "tier": tier} for k in range(8)]
         return specs
 
     def one_direct(seed, i, M, compiler=None, spec=None):
@@ -41,6 +42,18 @@ def make(prop, rule_text, hostile_names):
         pc.compare(ast, "features/x.feature", k, prop, M, case)
 
     def run_shard(spec, M):
+        if spec["family"] == "thresholds":
+            from .. import thresholds, observe
+            for dim, n in thresholds.cases(spec["tier"], spec["part"], spec["parts"]):
+                R = thresholds.build(dim, n)
+                o = observe.parse_observed(R.text)
+                M.case(h64(R.text))
+                if o.status != "ok":
+                    M.count("advisory.generated_document_rejected")
+                    continue
+                M.count("documents_parsed")
+                pc.compare(o.ast, "features/x.feature", int(o.idgen.get_next_id()), prop, M, {"kind": "threshold", "dim": dim, "n": n})
+            return
         if spec["family"] == "reused_compiler":
             from gherkin.pickles.compiler import Compiler
             comp = Compiler()          # one Compiler (and its id generator) for every document of the shard
@@ -51,7 +64,9 @@ def make(prop, rule_text, hostile_names):
             (one_direct if spec["family"] == "direct" else one_parsed)(spec["seed"], i, M)
 
     def replay(case, M):
-        if case["kind"] == "shard":
+        if case["kind"] == "threshold":
+            run_shard({"family": "thresholds", "tier": "thorough", "part": 0, "parts": 1, "seed": 0}, M)
+        elif case["kind"] == "shard":
             run_shard(case["spec"], M)
         elif case["kind"] == "ast":
             pc.compare(case["doc"], "features/x.feature", case["next_id"], prop, M, case)
